@@ -190,12 +190,14 @@ Pow(a, e) == Mk(a.neg /\ e % 2 = 1, MPowRec(a.mag, e, <<1>>))
 
 BitLen(a) == MBitLen(a.mag)     \* of the magnitude
 
-\* floor of the square root, a >= 0: bits of the root decided from the top
-RECURSIVE MSqrtRec(_, _, _)
-MSqrtRec(a, k, r) == IF k < 0 THEN r
-                     ELSE LET c == MAdd(r, MShl(<<1>>, k))
-                          IN MSqrtRec(a, k - 1, IF MCmp(MMul(c, c), a) <= 0 THEN c ELSE r)
-Sqrt(a) == Mk(FALSE, MSqrtRec(a.mag, (MBitLen(a.mag) + 1) \div 2, <<>>))
+\* floor of the square root, a >= 0.  Newton's iteration x' = (x + a \div x) \div 2 started from a power of
+\* two x0 >= sqrt(a): the iterates decrease strictly while x > floor(sqrt(a)) and the first x with
+\* x' >= x is floor(sqrt(a)) (classical integer square root).
+RECURSIVE MSqrtRec(_, _)
+MSqrtRec(a, x) == LET y == MShr(MAdd(x, MDivMod(a, x)[1]), 1)
+                  IN IF MCmp(y, x) >= 0 THEN x ELSE MSqrtRec(a, y)
+Sqrt(a) == IF a.mag = <<>> THEN Zero
+           ELSE Mk(FALSE, MSqrtRec(a.mag, MShl(<<1>>, (MBitLen(a.mag) + 1) \div 2)))
 
 \* (a*b) rem m, truncated
 ModMul(a, b, m) == Rem(Mul(a, b), m)
